@@ -29,6 +29,7 @@ use crate::codec::family::Family;
 use crate::common::NumStdDev;
 use crate::error::Error;
 use crate::hll::estimator::HipEstimator;
+use crate::hll::estimator::check_cached_values;
 use crate::hll::get_slot;
 use crate::hll::get_value;
 use crate::hll::pack_coupon;
@@ -401,14 +402,49 @@ impl Array4 {
         estimator.set_kxq1(kxq1);
         estimator.set_out_of_order(ooo);
 
-        Ok(Self {
+        let array = Self {
             lg_config_k,
             bytes: data.into_boxed_slice(),
             cur_min,
             num_at_cur_min,
             aux_map,
             estimator,
-        })
+        };
+        // every AUX_TOKEN nibble needs its exception, every exception its token, and an
+        // exception is a value at least AUX_TOKEN above cur_min
+        if cur_min > 63 {
+            return Err(Error::deserial(format!(
+                "corrupted: cur_min must be at most 63, got {cur_min}"
+            )));
+        }
+        let mut num_tokens = 0u32;
+        for slot in 0..(1u32 << lg_config_k) {
+            if array.get_raw(slot) == AUX_TOKEN {
+                num_tokens += 1;
+                match array.aux_map.as_ref().and_then(|aux| aux.get(slot)) {
+                    Some(value) if value <= 63 && value >= cur_min.saturating_add(AUX_TOKEN) => {}
+                    _ => {
+                        return Err(Error::deserial(format!(
+                            "corrupted: slot {slot} is marked as an exception without a valid aux entry"
+                        )));
+                    }
+                }
+            }
+        }
+        if num_tokens != aux_count {
+            return Err(Error::deserial(format!(
+                "corrupted: {num_tokens} exception slots but {aux_count} aux entries"
+            )));
+        }
+        check_cached_values(
+            (0..(1u32 << lg_config_k)).map(|slot| array.get(slot)),
+            cur_min,
+            num_at_cur_min,
+            hip_accum,
+            kxq0,
+            kxq1,
+        )?;
+        Ok(array)
     }
 
     /// Serialize Array4 to bytes
